@@ -204,6 +204,16 @@ func (st *State) globalVal(o *types.Var) Val {
 		st.facts = st.facts.push(sNot(sEq(v.arr(), "0")))
 		st.fc.noteAssumption("unexported package-level slice " + pkgName + "." + o.Name() + " is not aliased by any parameter (it is never returned or stored by the package)")
 	}
+	if v.K == KArray && !o.Exported() {
+		if at, ok := o.Type().Underlying().(*types.Array); ok && classify(at.Elem()) == tcSlice {
+			// array of slices: component 0 holds the array ids
+			for _, a := range st.fc.inputArrs {
+				st.facts = st.facts.push(fmt.Sprintf("(forall ((g_k Int)) (! (or (not (= (select %s g_k) %s)) (= %s 0)) :pattern ((select %s g_k))))", v.Sub[0].S, a, a, v.Sub[0].S))
+			}
+			st.facts = st.facts.push(fmt.Sprintf("(forall ((g_k Int)) (! (and (<= 0 (select %s g_k)) (< (select %s g_k) %s)) :pattern ((select %s g_k))))", v.Sub[0].S, v.Sub[0].S, st.fc.entryAlloc(), v.Sub[0].S))
+			st.fc.noteAssumption("slices stored in the unexported package-level array " + pkgName + "." + o.Name() + " are not aliased by any parameter")
+		}
+	}
 	st.fc.noteAssumption("package-level variable " + pkgName + "." + o.Name() + " is only written by init/contracted functions")
 	return v
 }
